@@ -83,18 +83,22 @@ func genBehaviours(tp *simrt.Tape, kind el.NodeType) []int {
 	for i := range out {
 		if kind == el.NodeTypeSink {
 			// mostly ok
-			switch tp.Choose(6, "sinkbeh") {
+			switch tp.Choose(7, "sinkbeh") {
 			case 0:
 				out[i] = bSinkErr
+			case 6:
+				out[i] = bErrorWithEvent
 			case 1:
 				out[i] = bSinkReturnsEvent
 			default:
 				out[i] = bSinkOK
 			}
 		} else {
-			switch tp.Choose(8, "beh") {
+			switch tp.Choose(9, "beh") {
 			case 0:
 				out[i] = bDrop
+			case 8:
+				out[i] = bErrorWithEvent
 			case 1:
 				out[i] = bError
 			case 2, 3:
@@ -204,6 +208,11 @@ func runFanout(rc *RunCtx, o fanOpts) {
 			k := tp.Choose(maxFilters+1, "nfilt")
 			for j := 0; j < k; j++ {
 				ids = append(ids, filters[tp.Choose(len(filters), "filt")].id)
+			}
+			if tp.Choose(5, "innersink") == 0 {
+				// a sink at an inner position is accepted by the Broker (only the last
+				// two nodes are checked); a successful sink ends the traversal there
+				ids = append(ids, formatters[tp.Choose(len(formatters), "fmt0")].id, sinks[tp.Choose(len(sinks), "sink0")].id)
 			}
 			ids = append(ids, formatters[tp.Choose(len(formatters), "fmt")].id)
 			ids = append(ids, sinks[tp.Choose(len(sinks), "sink")].id)
@@ -345,6 +354,37 @@ func runFanout(rc *RunCtx, o fanOpts) {
 		})
 	}
 	_ = anyDeadline
+
+	// C03: some nodes call back into the Broker (a nested Send to another type)
+	// while a concurrent task re-sets thresholds to the values they already have:
+	// neither changes what a Send must do, both add lock traffic around it
+	if o.small && tp.Choose(3, "reentrant") == 0 {
+		broker.RegisterNode("tzf", &passNode{el.NodeTypeFormatter})
+		broker.RegisterNode("tzs", &passNode{el.NodeTypeSink})
+		broker.RegisterPipeline(el.Pipeline{PipelineID: "tz", EventType: "tz", NodeIDs: []el.NodeID{"tzf", "tzs"}})
+		reent := map[string]bool{}
+		for _, p := range all {
+			if tp.Choose(3, "reent-node") == 0 {
+				reent[p.id] = true
+			}
+		}
+		h.reentry = func(n *recNode, where string) {
+			if where == "process" && reent[n.Label] {
+				simrt.Probe("node.nested-send")
+				broker.Send(context.Background(), "tz", &plainPayload{N: 1})
+			}
+		}
+		k := 1 + tp.Choose(4, "nsetter")
+		sim.Spawn("setter", func() {
+			for i := 0; i < k; i++ {
+				simrt.Yield("setter:step")
+				t := types[i%len(types)]
+				broker.SetSuccessThreshold(el.EventType(t), thr[t][0])
+				broker.SetSuccessThresholdSinks(el.EventType(t), thr[t][1])
+			}
+		})
+		desc.History = append(desc.History, fmt.Sprintf("re-entrant nodes %v + concurrent threshold setter", reent))
+	}
 
 	// a concurrent task re-registers registered pipelines with their own, unchanged
 	// definition: the set of registered pipelines never changes, so every Send must
@@ -578,7 +618,7 @@ func checkStatus(rc *RunCtx, s *fanSend, pipes []*mPipe, chains [][]expStep, can
 		pos := len(ch) - 1
 		id := pipes[i].nodeIDs[pos]
 		switch last.beh {
-		case bError, bSinkErr:
+		case bError, bSinkErr, bErrorWithEvent:
 			nErr++
 		default:
 			expComplete[id]++
